@@ -14,14 +14,15 @@ import (
 
 // CEnv: environment for evaluating a contract expression to an SMT term.
 type CEnv struct {
-	g     *FuncGen
-	pkg   *packages.Package // package whose scope resolves names and predicates
-	st    *State
-	old   *State
-	names map[string]Val
-	scope *types.Scope // innermost Go scope for local lookups (may be nil)
-	pos   token.Pos
-	depth int
+	noRename bool
+	g        *FuncGen
+	pkg      *packages.Package // package whose scope resolves names and predicates
+	st       *State
+	old      *State
+	names    map[string]Val
+	scope    *types.Scope // innermost Go scope for local lookups (may be nil)
+	pos      token.Pos
+	depth    int
 }
 
 func (c *CEnv) with(names map[string]Val) *CEnv {
@@ -170,6 +171,17 @@ func (c *CEnv) lookupIdent(name string) (Val, bool) {
 			}
 		case *types.Var:
 			return c.g.globalGet(c.st, ob), true
+		}
+	}
+	// a variable of the function under verification that was renamed since the lock was taken (names.go)
+	if !c.noRename {
+		if nn, ok := c.g.P.Renames[c.g.F.Key][name]; ok && nn != name {
+			cc := *c
+			cc.noRename = true
+			if v, ok := cc.lookupIdent(nn); ok {
+				c.g.noteOnce(fmt.Sprintf("contract of %s mentions %s, which the function no longer has: read as %s (same position and type on the reference tree)", c.g.F.Key, name, nn))
+				return v, true
+			}
 		}
 	}
 	return Val{}, false
@@ -443,6 +455,8 @@ func (c *CEnv) evalCall(e *CExpr) Val {
 		return Val{fmt.Sprintf("(select %s %s)", g.ghostGet(c.st, "$hashdata"), arg(0).T), types.Typ[types.String], "Bytes"}
 	case "scRest":
 		return Val{fmt.Sprintf("(select %s %s)", g.ghostGet(c.st, "$screst"), arg(0).T), types.Typ[types.String], "Bytes"}
+	case "callCount":
+		return Val{fmt.Sprintf("(select %s %s)", g.ghostGet(c.st, "$calls"), arg(0).T), types.Typ[types.Int], "Int"}
 	case "scTok":
 		return Val{fmt.Sprintf("(select %s %s)", g.ghostGet(c.st, "$sctok"), arg(0).T), types.Typ[types.String], "Bytes"}
 	case "len":
